@@ -161,8 +161,9 @@ pub fn check_retain_kind(orig: &PortableRegistry, mask: u32, c01_only: bool, kin
         }
         yes
     });
-    // the ids accepted by the predicate are those it answered `true` for (for a pure predicate: the mask)
-    let mask = accepted;
+    // the ids accepted by keep: for a pure predicate the set {i : keep(i)} itself (whether or not the implementation
+    // asked), for a stateful one the ids it answered `true` for
+    let mask = if kind == 0 { mask & ((1u32 << orig.types.len()) - 1) } else { accepted };
     if calls.iter().any(|c| *c as usize >= orig.types.len()) {
         return Some(("retain:filter-asked-about-unknown-id".into(), format!("the filter was asked about ids {calls:?} of a registry with {} entries", orig.types.len())));
     }
